@@ -408,7 +408,7 @@ int dup(int fd) { return fd + 100; }
  * new FILE object on the same file. Every write is logged per file: number of write calls and the first VX_IO_TEXT bytes. */
 #define VX_IO_FILES 8
 #define VX_IO_STREAMS 16
-#define VX_IO_TEXT 32
+#define VX_IO_TEXT 48
 struct vx_stream { int file; int pad; };
 static struct vx_stream vx_streams[VX_IO_STREAMS] = { {0, 0}, {1, 0}, {2, 0} };
 static int vx_nstreams = 3, vx_nfiles = 3;
